@@ -33,7 +33,10 @@ claim('C10',
       "enumerates every binding once is a stated lemma; `locals()` programs are treated as the code treats them.",
       "contract-based deductive verification: loop-invariant cut on the real lint(), case product over the real binding/scope classes",
       "DESIGN.md 3 C10")
-_FLOW_NOTE = ("Trusted: the composition lemma (structural induction over the program, each step a discharged obligation) and the link between "
+_FLOW_NOTE = ("The composition lemma is not proved; a BOUNDED stand-in (contracts/composition.py: ~8000 whole programs of a small statement grammar, "
+              "real lint / names_at against a definitional interpreter enumerating every execution) checks the composed claim and is reported "
+              "under `bounded`, never counted as proved. "
+              "Trusted: the composition lemma (structural induction over the program, each step a discharged obligation) and the link between "
               "spec/flow.py and CPython's semantics; ast positions follow token order; table functions are parametric in the key; bisect and set "
               "iteration by their library contracts. Obligations are pointwise in one symbolic identifier with opaque sub-statements/"
               "sub-expressions (both representations of a child's effect) and symbolic source positions.")
